@@ -174,9 +174,55 @@ type Gen struct {
 	nloop  int
 	Budget int // remaining activities
 	NoOr   bool // do not generate inclusive blocks
+	// Data: plain tasks write a variable of their own (w1, w2, ...; the k-th request writes k+1, the
+	// initial value is 0) and conditions may read the variables of tasks that are certain to have
+	// finished before the deciding gateway is reached (earlier siblings of an enclosing sequence
+	// whose tokens have all been joined): data flows from one token to a later one, race-free.
+	Data  bool
+	nw    int
+	avail []string
+}
+
+// WVars lists the task-written data variables (w...) of a program.
+func WVars(b *Block) []string {
+	var out []string
+	b.Walk(func(x *Block) {
+		if x.Kind == "task" {
+			for _, w := range x.Writes {
+				if len(w) > 1 && w[0] == 'w' {
+					out = append(out, w)
+				}
+			}
+		}
+	})
+	return out
+}
+
+// settled: every token that enters the block has left it through its exit (or was consumed at a join
+// inside it) by the time the block's exit token continues: no branch with an end event of its own.
+func settled(b *Block) bool {
+	ok := true
+	b.Walk(func(x *Block) {
+		if x.Kind == "condtask" {
+			ok = false
+		}
+		for _, e := range x.Ends {
+			if e {
+				ok = false
+			}
+		}
+	})
+	return ok
 }
 
 func (gn *Gen) cond() *Cond {
+	if gn.Data && len(gn.avail) > 0 && gn.R.Intn(2) == 0 {
+		c := &Cond{Kind: "var", Var: gn.avail[gn.R.Intn(len(gn.avail))], Op: ">", Val: 0}
+		if gn.R.Intn(3) == 0 {
+			c.Op = "=="
+		}
+		return c
+	}
 	v := fmt.Sprintf("v%d", gn.R.Intn(gn.NVars))
 	c := &Cond{Kind: "var", Var: v, Op: ">", Val: 0}
 	switch gn.R.Intn(6) {
@@ -217,10 +263,15 @@ func (gn *Gen) Block(kind string, depth int, terminalOK bool) *Block {
 	switch kind {
 	case "task":
 		gn.Budget--
+		if gn.Data {
+			gn.nw++
+			return T(fmt.Sprintf("w%d", gn.nw))
+		}
 		return T()
 	case "seq":
 		n := 2 + gn.R.Intn(2)
 		b := &Block{Kind: "seq", Default: -1}
+		save := gn.avail
 		for i := 0; i < n; i++ {
 			last := i == n-1
 			k := gn.Block("", depth-1, terminalOK && last)
@@ -228,7 +279,9 @@ func (gn *Gen) Block(kind string, depth int, terminalOK bool) *Block {
 			if k.Kind == "condtask" {
 				break
 			}
+			gn.Settle(k)
 		}
+		gn.avail = save
 		return b
 	case "xor", "or":
 		n := 2 + gn.R.Intn(2)
@@ -301,6 +354,19 @@ func (gn *Gen) Block(kind string, depth int, terminalOK bool) *Block {
 	}
 	panic("bad kind")
 }
+
+// Settle makes the variables written inside k readable by conditions generated from now on (k has been
+// placed in a sequence and everything generated next comes after it). The caller restores gn.avail.
+func (gn *Gen) Settle(k *Block) {
+	if !gn.Data || !settled(k) {
+		return
+	}
+	gn.avail = append(append([]string(nil), gn.avail...), WVars(k)...)
+}
+
+// Avail returns / sets the readable data variables (for callers building sequences themselves).
+func (gn *Gen) Avail() []string     { return gn.avail }
+func (gn *Gen) SetAvail(a []string) { gn.avail = a }
 
 // Walk visits all blocks.
 func (b *Block) Walk(f func(*Block)) {
